@@ -33,6 +33,11 @@ def resolve_target(target):
     return obj, owner
 
 
+def contract_tag(con):
+    """stable obligation-name prefix: property / module:qualname # contract class"""
+    return f"{con.prop}/{con.target}#{con.__name__}"
+
+
 def eval_clause(it, f, ns):
     """evaluate a contract clause (a Python function in a sidecar file) in pure mode; arguments are
     bound by parameter name from `ns`."""
@@ -131,7 +136,7 @@ def run_one_path(env, con, fn, ctx):
     hook = getattr(con, "await_hook", None)
     if hook is not None:
         it.await_hook = hook.__func__ if isinstance(hook, staticmethod) else hook
-    tag = f"{con.prop}/{con.target}"
+    tag = contract_tag(con)
 
     def ns_exit(extra):
         ns = dict(it.entry_args)
@@ -144,6 +149,7 @@ def run_one_path(env, con, fn, ctx):
         ns["yielded"] = y if y is not None else ctx.yielded
         ns["trace"] = ctx.trace
         ns["ghost"] = ctx.ghost
+        ns["received"] = ctx.ghost.get("received", [])
         ns.update(extra)
         return ns
 
